@@ -461,6 +461,7 @@ type Contract struct {
 	CheckGo    bool   // spawned calls are executed on a forked state for their obligations
 	ArithWrap  bool   // integer arithmetic wraps around (exact two's complement) instead of raising overflow obligations
 	FirstDefer string // the body must start with `defer <this function>(...)`
+	StorePre   map[string][]Clause // obligations at every store into a map held in a field of that name ($key, $map, $present, $value)
 	DeletePre  map[string][]Clause // obligations at every delete from a map held in a field of that name ($key, $map)
 	SendPre    map[string][]Clause // obligations at every send on a channel expression of that text ($value = the value sent)
 	WritePre   map[string][]Clause // obligations at every assignment to a field of that name
@@ -508,7 +509,7 @@ type ContractFile struct {
 
 var clauseKW = map[string]bool{"contract": true, "extern": true, "requires": true, "ensures": true, "assigns": true,
 	"loop": true, "pred": true, "func": true, "ufunc": true, "axiom": true, "guards": true, "lockinv": true, "rely": true,
-	"chaninv": true, "chanassume": true, "ghost": true, "trusted": true, "panics": true, "props": true, "quiet": true, "pure": true, "firstdefer": true, "checkgo": true, "wakeup": true, "counts": true, "callpre": true, "arith": true, "writepre": true, "sendpre": true, "deletepre": true}
+	"chaninv": true, "chanassume": true, "ghost": true, "trusted": true, "panics": true, "props": true, "quiet": true, "pure": true, "firstdefer": true, "checkgo": true, "wakeup": true, "counts": true, "callpre": true, "arith": true, "writepre": true, "sendpre": true, "storepre": true, "deletepre": true}
 
 func firstWord(s string) string {
 	s = strings.TrimSpace(s)
@@ -761,6 +762,23 @@ func parseContractText(data, path, pkg string) (*ContractFile, error) {
 				cur.DeletePre = map[string][]Clause{}
 			}
 			cur.DeletePre[field] = append(cur.DeletePre[field], c)
+		case "storepre":
+			if cur == nil {
+				return nil, fail(i, fmt.Errorf("storepre outside contract"))
+			}
+			ci := strings.Index(rest, ":")
+			if ci < 0 {
+				return nil, fail(i, fmt.Errorf("storepre needs ':'"))
+			}
+			field := strings.TrimSpace(rest[:ci])
+			c, err := mkClause(rest[ci+1:])
+			if err != nil {
+				return nil, fail(i, err)
+			}
+			if cur.StorePre == nil {
+				cur.StorePre = map[string][]Clause{}
+			}
+			cur.StorePre[field] = append(cur.StorePre[field], c)
 		case "sendpre":
 			if cur == nil {
 				return nil, fail(i, fmt.Errorf("sendpre outside contract"))
